@@ -30,7 +30,7 @@ YASTNERROR_IS_SKIP = False
 
 FAM1 = [('Z2', False), ('U1', False), ('Z3', False), ('Z2', True), ('U1', True)]
 FAM2 = [('U1xU1', False), ('Z2xU1', False), ('U1xU1', (True, False)), ('U1xU1', (False, True)), ('Z2xU1', True)]
-OPS = ['fuse02', 'fuse01_unfuse', 'dot', 'dot_nf', 'dot_f2m', 'trace', 'swap', 'add', 'vdot', 'mask', 'broadcast', 'fuse_dot_mismatch', 'svd', 'ncon', 'transpose_fuse']
+OPS = ['fuse02', 'fuse01_unfuse', 'dot', 'dot_nf', 'dot_f2m', 'trace', 'swap', 'add', 'vdot', 'mask', 'broadcast', 'fuse_dot_mismatch', 'fuse_dot_disjoint', 'svd', 'ncon', 'transpose_fuse']
 
 
 def cases(tier, seed):
@@ -74,7 +74,14 @@ def _fam_tensors(ctx, fam, idx, tag):
     b = make(f'{tag}b', (-1, -1, 1), blocks)
     c = make(f'{tag}c', (1, 1, -1), blocks[:-1])
     d = make(f'{tag}d', (1, 1, -1), blocks[:1])
-    return cfg, a, b, c, d
+    # e, f: the hard-fused leg (0,1) has a common sector whose constituents are DISJOINT (empty intersection of the fusion histories)
+    if nsym == 1:
+        e = make(f'{tag}e', (1, 1, -1), [blocks[0], blocks[1]])
+        f = make(f'{tag}f', (1, 1, -1), [blocks[0], blocks[2]])
+    else:
+        e = make(f'{tag}e', (1, 1, -1), [blocks[0], blocks[1]])
+        f = make(f'{tag}f', (1, 1, -1), [blocks[0], ((0, 1), (0, 0), (0, 1))])
+    return cfg, a, b, c, d, e, f
 
 
 class Obs:
@@ -91,7 +98,7 @@ def _observe(r):
     return Obs('V', v=r)
 
 
-def _apply(op, cfg, a, b, c, d):
+def _apply(op, cfg, a, b, c, d, e=None, f=None):
     import yastn
     if op == 'fuse02':
         return a.fuse_legs(axes=((0, 2), 1), mode='hard')
@@ -132,6 +139,11 @@ def _apply(op, cfg, a, b, c, d):
         fd = d.conj().fuse_legs(axes=((0, 1), 2), mode='hard')
         return (yastn.tensordot(fa, fc, axes=(0, 0)), yastn.vdot(fc.conj(), fa), fa + fc.conj(),
                 yastn.tensordot(fa, fd, axes=(0, 0)), yastn.tensordot(fd, fa, axes=(0, 0)), fd.conj() + fa, yastn.vdot(fa, fd.conj()))
+    if op == 'fuse_dot_disjoint':
+        fe = e.fuse_legs(axes=((0, 1), 2), mode='hard')
+        ff = f.conj().fuse_legs(axes=((0, 1), 2), mode='hard')
+        return (yastn.tensordot(fe, ff, axes=(0, 0)), yastn.vdot(ff.conj(), fe), fe + ff.conj(), yastn.tensordot(ff, fe, axes=((0, 1), (0, 1))),
+                yastn.tensordot(fe, ff, axes=(0, 0)).trace(axes=(0, 1)))
     if op == 'svd':
         U, S, V = yastn.linalg.svd(a, axes=((0, 1), (2,)), sU=-1)
         return U.struct, U.slices, tuple(U.hfs), S.struct, V.struct, U @ S @ V
@@ -227,7 +239,7 @@ def k_history(ctx, spec):
     fams = FAM1 if spec['fam'] == 'one' else FAM2
     tens = [_fam_tensors(ctx, f, i, 'x') for i, f in enumerate(fams)]
     # collision precondition: identical struct and slices across the family
-    for cfg, a, b, c, d in tens[1:]:
+    for cfg, a, b, c, d, e, f in tens[1:]:
         ctx.check(a.struct == tens[0][1].struct and a.slices == tens[0][1].slices and b.struct == tens[0][2].struct, 'family:colliding-layout',
                   (a.struct, tens[0][1].struct))
     L = 8 if spec['tier'] == 'quick' else 12
@@ -235,7 +247,7 @@ def k_history(ctx, spec):
     hist = rng.sample(pool, L)
     # make sure the same op appears on at least two different families (that is what collides)
     if rng.random() < 0.6:
-        hist[0] = (hist[0][0], rng.choice(['fuse02', 'transpose_fuse', 'dot_f2m', 'fuse_dot_mismatch', 'fuse01_unfuse']))
+        hist[0] = (hist[0][0], rng.choice(['fuse02', 'transpose_fuse', 'dot_f2m', 'fuse_dot_mismatch', 'fuse_dot_disjoint', 'fuse01_unfuse']))
     op0 = hist[0][1]
     hist[1] = ((hist[0][0] + 1) % len(fams), op0)
     hist[2] = ((hist[0][0] + 2) % len(fams), op0)
